@@ -63,6 +63,133 @@ pub fn deserialize(context: &mut DeserializationContext<'_>) -> (r: Result<Self>
 """
 
 
+
+DE_FULL_TMPL = """%(specs)s
+impl BinaryDeserializer for %(X)s {
+    type G = %(G)s;
+    open spec fn gv(&self) -> %(G)s { %(gv)s }
+    open spec fn dec(s: Seq<u8>, t: Tbl) -> Dec<%(G)s> { dec_%(X)s(s, t) }
+
+//#fn id=catalogue::%(X)s::deserialize tags=C02,C03,C14,C05,C06,C07,C04 mode=body
+#[verifier::rlimit(200)]
+fn deserialize(context: &mut DeserializationContext<'_>) -> (r: Result<Self>)%(trans_ens)s
+%(body)s
+}
+"""
+
+RD_TMPL = """/// the fields of %(what)s read in declaration order (read_field / read_optional_field per the
+/// declaration: chunk of the step that added the field, declared default, Option by type name);
+/// result: values, bytes taken from chunk 0, state after
+pub open spec fn rd_%(N)s(s0: RS, h: RH) -> Option<(%(G)s, nat, RS)> {
+    %(chain)s
+}
+
+/// version byte 0: chunk 0 is the stream itself and no later chunk exists; k >= 1: header of
+/// k + 1 steps, then the chunks
+pub open spec fn dec_%(N)s(s: Seq<u8>, t: Tbl) -> Dec<%(G)s> {
+    if s.len() < 1 { Dec::Err } else if s[0] == 0 {
+        match rd_%(N)s(RS { wins: Seq::new(%(k)d, |c: int| if c == 0 { s.skip(1) } else { Seq::<u8>::empty() }), idx: Seq::new(%(k)d, |c: int| -1int), t },
+                      RH { sv: 0, removed: Set::empty(), mo: Map::empty() }) {
+            Some((v, n, s2)) => Dec::Ok { v, n: n + 1, t: s2.t },
+            None => Dec::Err,
+        }
+    } else {
+        match adt_header(s.skip(1), t, s[0] as nat + 1) {
+            Some(h) => match rd_%(N)s(RS { wins: Seq::new(%(k)d, |c: int| if c <= s[0] { s.skip(1).subrange(h.wins[c].0 as int, h.wins[c].1 as int) } else { Seq::<u8>::empty() }),
+                                          idx: Seq::new(%(k)d, |c: int| -1int), t: h.t },
+                                     RH { sv: s[0] as int, removed: h.removed, mo: h.made_opt }) {
+                Some((v, n, s2)) => Dec::Ok { v, n: h.total + 1, t: s2.t },
+                None => Dec::Err,
+            },
+            None => Dec::Err,
+        }
+    }
+}
+"""
+
+SIMPLE_DEFAULT = re.compile(r'^(\d+(u8|u16|u32|u64|i8|i16|i32|i64)|None|true|false)$')
+
+
+def reader_spec(N, what, declared, steps, core, strlit):
+    """(G, spec text) of the field-level reader of one record (struct or enum case), or None if a
+    declared default is not a literal the spec can name.  N = identifier suffix of the spec fns"""
+    lf = core.lf
+    defaults = {st['name']: st['default'] for st in declared if st['kind'] == 'FieldAdded'}
+    os_of = {}
+    for i, (kind, name) in enumerate(steps):
+        if kind == 'FieldMadeOptional':
+            os_of[name] = i
+    for f in lf:
+        dv = defaults.get(f['name'])
+        if dv is not None and not SIMPLE_DEFAULT.match(dv):
+            return None
+    G = '(' + ', '.join('<%s as BinaryDeserializer>::G' % f['ty'] for f in lf) + (',' if len(lf) == 1 else '') + ')'
+
+    def nest(i, st, ind):
+        sp = '    ' * ind
+        if i == len(lf):
+            vals = ', '.join('v%d' % j for j in range(len(lf))) + (',' if len(lf) == 1 else '')
+            n0 = ' + '.join('n%d' % j for j, f in enumerate(lf) if core.gen.get(f['name'], 0) == 0) or '0nat'
+            return 'Some(((%s), %s, %s))' % (vals, n0, st)
+        f = lf[i]
+        c = core.gen.get(f['name'], 0)
+        dv = defaults.get(f['name'])
+        if f['opt'] is not None:
+            dd = 'None' if dv is None else 'Some(gv_of::<Option<%s>>(%s))' % (f['opt'], dv)
+            call = 'rof_step::<%s>(%s, h, %s, %dint, %dint, %s)' % (f['opt'], st, strlit(f['name']), c, os_of.get(f['name'], 0), dd)
+        else:
+            dd = 'None' if dv is None else 'Some(gv_of::<%s>(%s))' % (f['ty'], dv)
+            call = 'rf_step::<%s>(%s, h, %s, %dint, %s)' % (f['ty'], st, strlit(f['name']), c, dd)
+        return ('match %s {\n' % call + sp + '    Some((v%d, n%d, s%d)) => ' % (i, i, i + 1) + nest(i + 1, 's%d' % (i + 1), ind + 1) + ',\n'
+                + sp + '    None => None,\n' + sp + '}')
+    return G, RD_TMPL % dict(N=N, what=what, G=G, chain=nest(0, 's0', 1), k=core.k)
+
+
+def annotate_reader(db, what, k):
+    """after each statement creating `deserializer` (new_v0 / new) in the block `db`: its abstract
+    state is the initial one of dec_<N>"""
+    m0 = re.search(r'(let mut deserializer =\s*AdtDeserializer::new_v0\([^;]*;\n)', db)
+    m1 = re.search(r'(let mut deserializer =\s*AdtDeserializer::new\([^;]*;\n)', db)
+    if not m0 or not m1:
+        raise rx.Lost('deserialize of %s: statements creating the deserializer not found' % what)
+    h0 = '''        proof {
+            let s = old(context).remaining();
+            assert(deserializer.rwf());
+            assert(deserializer.rs().wins =~~= Seq::new(%(k)d, |c: int| if c == 0 { s.skip(1) } else { Seq::<u8>::empty() }));
+            assert(deserializer.rs().idx =~= Seq::new(%(k)d, |c: int| -1int));
+            assert(deserializer.rh().removed =~= Set::<Seq<char>>::empty());
+            assert(deserializer.rh().mo =~= Map::<(int, int), u8>::empty());
+        }
+''' % dict(k=k)
+    h1 = '''        proof {
+            let s = old(context).remaining();
+            let h = adt_header(s.skip(1), old(context).state.val().strs(), s[0] as nat + 1)->Some_0;
+            assert(deserializer.rwf());
+            assert(deserializer.rs().wins =~~= Seq::new(%(k)d, |c: int| if c <= s[0] { s.skip(1).subrange(h.wins[c].0 as int, h.wins[c].1 as int) } else { Seq::<u8>::empty() }));
+            assert(deserializer.rs().idx =~= Seq::new(%(k)d, |c: int| -1int));
+        }
+''' % dict(k=k)
+    # insert the later one first so that positions stay valid
+    for m, hint in sorted([(m0, h0), (m1, h1)], key=lambda x: -x[0].end()):
+        db = db[:m.end()] + hint + db[m.end():]
+    return db
+
+
+def gen_reader_full(X, d, steps, core, H, expanded):
+    """field-level reader of a struct with evolution steps, or None (see reader_spec)"""
+    rs = reader_spec(X, 'struct ' + X, d['evolution'], steps, core, H['strlit'])
+    if rs is None:
+        return None
+    G, specs = rs
+    lf = core.lf
+    gv = '(' + ', '.join('self.%s.gv()' % f['name'] for f in lf) + (',' if len(lf) == 1 else '') + ')'
+    db = H['norm_paths'](H['impl_fn'](expanded, 'BinaryDeserializer', X))
+    db = annotate_reader(db, X, core.k)
+    db = db.replace('{', '{\n        broadcast use {lemma_rf_step, lemma_rof_step};\n        proof { reveal_strlits(); }', 1)
+    trans = ''.join('\n        r is Ok ==> r->Ok_0.%s == (%s),' % (f['name'], f['transient']) for f in d['fields'] if f['transient'] is not None)
+    return DE_FULL_TMPL % dict(X=X, G=G, specs=specs, gv=gv, body=db, trans_ens=('\n    ensures' + trans) if trans else '')
+
+
 class Core:
     """spec text fragments of one record with evolution steps (a struct, or one enum case).
     lf = serialized fields in declaration order, steps = [(kind, name)] read from the expansion,
@@ -196,9 +323,14 @@ def gen_struct_evolved(d, expanded, H):
     b = b.replace('{', '{\n        broadcast use {lemma_swrote_trans_b, lemma_swrote_facts_b};', 1)
     out.append(SER_TMPL % dict(X=X, tn=core.ts('t')[-1], chunks=', '.join(core.chunks('t')), fi=core.fi, evos=core.evos, removed=core.removed,
                                k=k, v=core.V, ok=core.ok('t'), vwf=core.vwf, body=b))
-    db = H['norm_paths'](H['impl_fn'](expanded, 'BinaryDeserializer', X))
-    db = db.replace('{', '{\n        broadcast use {lemma_rf_any, lemma_rof_any};\n        proof { reveal_strlits(); }', 1)
-    out.append(DE_TMPL % dict(X=X, body=db))
+    full = gen_reader_full(X, d, steps, core, H, expanded)
+    if full is not None:
+        out.append(full)
+    else:
+        # a declared default the spec cannot name: the reader is validated for totality only
+        db = H['norm_paths'](H['impl_fn'](expanded, 'BinaryDeserializer', X))
+        db = db.replace('{', '{\n        broadcast use {lemma_rf_any, lemma_rof_any};\n        proof { reveal_strlits(); }', 1)
+        out.append(DE_TMPL % dict(X=X, body=db))
     out.append(LEMMA_TMPL % dict(X=X, k=k))
     lits = set(f['name'] for f in d['fields']) | set(n for _, n in steps if n)
     return '\n'.join(out), sorted(lits)
